@@ -109,6 +109,17 @@ Theorem C11_error_step :
 Proof. exact error_step. Qed.
 Print Assumptions C11_error_step.
 
+(* (3b) the pre-check that lets a batchable write (SET, SETEX, single-key DEL, HMSET) join the shared batch
+   (node/state_machine.go isValidBatchableWrite, over ALL field/value pairs) implies the argument checks of
+   its handler and store function: no request fails on its arguments inside a batch, so the error of one
+   client's command never aborts the batched writes of the others. [vk] is the versioned form of a hash key;
+   its length bound is the explicit hypothesis. *)
+Theorem C11_precheck_implies_store_ok : forall (vk : bytes -> bytes),
+  (forall rk, rk <> [] -> 0 < blen (vk rk) /\ blen (vk rk) <= (blen rk / 8 + 1) * 9 + 64) ->
+  forall name args ts, valid_batchable name args ts = true -> store_args_ok vk name args ts = true.
+Proof. exact precheck_implies_store_ok. Qed.
+Print Assumptions C11_precheck_implies_store_ok.
+
 (* the hypothesis about errTooMuchBatchSize, checked on the source: at every place of package
    rockredis where that error leaves a function (directly or from a callee) no write into a batch
    precedes it; the list is regenerated by go/ast from rockredis/*.go *)
@@ -136,6 +147,12 @@ Example C11_ex_reject :
   apply_shape no_float false [B "set"; B "t:k"] = APanic /\
   apply_shape no_float false [B "zadd"; B "t:z"; B "1"] = AErr (EParseFloat (B "1")).
 Proof. vm_compute. repeat split. Qed.
+(* the pre-check looks at the LAST pair too: an over-long last field keeps the HMSET out of the batch,
+   a normal one is admitted *)
+Example C11_ex_precheck :
+  valid_batchable (B "hmset") [B "hmset"; B "t:h"; B "a"; B "1"; repeat 83 (N.to_nat 10241); B "2"] 1700000000 = false /\
+  valid_batchable (B "hmset") [B "hmset"; B "t:h"; B "a"; B "1"; B "b"; B "2"] 1700000000 = true.
+Proof. vm_compute. split; reflexivity. Qed.
 (* the table has write entries and none of them is unknown *)
 Example C11_ex_table :
   Nat.leb 50 (length (filter (fun r => kind_eqb (r_kind r) KWrite) reg_table)) = true /\
